@@ -14,6 +14,14 @@ NOTE = ("Trusted: Lean 4.33 kernel; axioms of every listed theorem ⊆ {propext,
         "object identity and file I/O are modelled away (exact rationals on a dyadic grid, explicit iteration orders).")
 
 CLAIMS = {
+    "C20": dict(text="Proved for the model: configuring from a result that is not SUCCESS is refused and leaves the task unchanged; from a SUCCESS result the work "
+                     "amount is the duration (minus the distinct absence steps below the run length when asked) and the rate is parent unit / sub unit "
+                     "(C20_refused, C20_configured, C20_duration_remove, C20_rate); an automatic component-free task with work D > 0 and rate r that becomes "
+                     "READY is WORKING from the end of that very iteration, loses r per active step, stays WORKING unchanged through inactive (project "
+                     "absence) steps, is WORKING at exactly the recorded steps up to the n-th active one with n = ceil(D/r), FINISHED from the next, and "
+                     "never holds a worker (C20_starts, C20_working, C20_occupation, C20_occupation_ends, C20_log, C20_no_worker, C20_steps). "
+                     "Exact for unit ratios that are powers of two (float division otherwise not modelled); duration 0 is the kept finding F27.",
+                design="6 C20", technique="Lean 4 proof (iteration-level recurrence for automatic tasks, ceiling arithmetic on Rat) + real sub-project files, setter and parent-run correspondence"),
     "C16": dict(text="Proved for the persistence model (write/read as relabelling between object references and ID labels, first match on load): "
                      "export never fails (C16_export_total); with unique IDs per kind and in-range references, import(export(x)) = x for the whole model "
                      "and state (C16_import_export), so the loaded project re-simulates identically (C16_resimulate); whatever loads re-exports to the same "
@@ -45,7 +53,11 @@ CLAIMS = {
     "C09": dict(text="Proved for the model: with both initialisation flags the entered state, hence the whole result, does not depend on the previous "
                      "state of the project at all — re-simulation, any earlier history of operations, or a fresh object give the same result "
                      "(C09_enter_indep, C09_resim, C09_resim_twice, C09_history_indep, C09_function). Independence of the iteration order of the internal "
-                     "sets (C09Order) is being proved separately; the address/hash/process clause is inherently about the runtime and is validated by "
+                     "sets: check_state(FINISHED) under the allocation invariant, check_state(WORKING) and check_removing_placed_workplace for every "
+                     "state, and the PERT update on finish-to-start networks give the same state for every visiting order, hence whole runs do "
+                     "(C09_order_finished/working/remove/pert_fs, C09_simulate_order, C09_simulate_order_fs). For SS/FF/SF networks the PERT values "
+                     "are genuinely order-dependent in the model (machine-checked example C09_order_pert_ff_counterexample); no effect on logs was "
+                     "found on the real code, so this part is search-only. The address/hash/process clause is inherently about the runtime and is validated by "
                      "the stream (permuted task/component hashes, rebuilt objects, fresh processes with different PYTHONHASHSEED) — partial by nature.",
                 design="6 C09", technique="Lean 4 proof that initialisation overwrites every dynamic field (determinism) + real runs under permuted set-iteration orders and hash seeds"),
     "C15": dict(text="Proved for the model as C15_partial: pausing at ANY k <= M and resuming with both initialisation flags off gives exactly the state of "
